@@ -31,6 +31,8 @@ mut("input_tensor_changed", 1, lambda e: e["data"].__setitem__(1, 4))
 mut("not_matching", 1, lambda e: e["ten"]["idx"].__setitem__(1, [1, 3, 2]))
 mut("measured_above_upper", 5, lambda e: e["out"].__setitem__("err2_q", 100000000))
 mut("measured_below_lower", 5, lambda e: e["out"].__setitem__("err2_q", 0))
+mut("int_dtype_on_real_data", 5, lambda e: e.__setitem__("dtype", "int64"))
+mut("unknown_dtype", 1, lambda e: e.__setitem__("dtype", "float16"))
 mut("measured_tails_not_monotone", 5, lambda e: e["tails"][0].__setitem__(2, e["tails"][0][1] + 5))
 rej = chk.validate("SVDDecompTrace", evs)
 for r in sorted(rej, key=str): print(r[:2])
